@@ -172,7 +172,9 @@ def run(tier):
     else:
         chk.model("MC_AddChain", workers=2)
     chk.extra["extracted_chain_instructions"] = dict(field=len(ex["field_chain"]["prog"]), scalar=len(ex["scalar_chain"]["prog"]))
-    chk.exec_and_validate("T_EC", gen(chk, tier), keyfn, accel=True, families=("bits", "big"))
+    cmds_ = gen(chk, tier)
+    chk.exec_and_validate("T_EC", cmds_, keyfn, accel=True, families=("bits", "big"))
+    chk.first_use("T_EC", cmds_, keyfn, accel=True, families=("bits", "big"))
     return chk.finish(
         "model_checking",
         "extracted programs: TLC walks the two addition chains parsed from the current tree (go/ast) at production size and "
